@@ -100,6 +100,8 @@ class Packer(object):
             self._unique_tensor_shapes = [p.shape for p in params_tensors]
         else:
             self._tensor_shapes = [p.shape for p in params_tensors]
+            # a new list: the cached one stays the packer's own
+            params_tensors = list(params_tensors)
 
         return params_tensors
 
@@ -170,7 +172,8 @@ class Packer(object):
                 raise RuntimeError("Mismatch length of the tensors")
 
             if len(tensor_shapes) == 0:
-                return self._obj
+                # no tensor to put: still a new object, like in every other case
+                return deepcopy(self._obj)
 
             # check the tensor shapes
             for i, (tens, shape) in enumerate(zip(tensors, tensor_shapes)):
@@ -228,7 +231,10 @@ class Packer(object):
         if tensor_shapes is None:
             raise RuntimeError("Please execute self.get_param_tensor(%s) first" % str(unique))
         elif len(tensor_shapes) == 0:
-            return self._obj
+            if a is not None and a.numel() != 0:
+                msg = "The number of element does not match. Expected: 0, got: %d" % a.numel()
+                raise RuntimeError(msg)
+            return deepcopy(self._obj)
         else:
             assert tensor_numel_tot is not None, "Please report to Github"
             assert tensor_numels is not None, "Please report to Github"
